@@ -3039,7 +3039,7 @@ func _range(n *node) {
 		next := n.exec
 		n.child[0].exec = func(f *frame) bltn {
 			f.data[index2] = reflect.ValueOf(value(f).String()) // set string copy for range
-			f.data[index3].SetInt(0)  // position of the first rune
+			f.data[index3].SetInt(0)                            // position of the first rune
 			return next
 		}
 		return
@@ -3140,6 +3140,20 @@ func loopVarFor(n *node) {
 		nv := reflect.New(fv.Type()).Elem()
 		nv.Set(fv)
 		f.data[n.findex] = nv
+		return next
+	}
+}
+
+// loopVarForBack is set on the body of a for loop with a per-iteration loop
+// variable. It runs at the end of the body and after a continue statement,
+// before the post statement: the value of the variable of the iteration, which
+// the body may have modified, is the one the next iteration starts with.
+func loopVarForBack(n *node) {
+	lv := n.child[0]
+	ixn := n.anc.child[0].child[0]
+	next := getExec(n.tnext)
+	n.exec = func(f *frame) bltn {
+		f.data[ixn.findex].Set(f.data[lv.findex])
 		return next
 	}
 }
